@@ -176,6 +176,24 @@ PROPS = {
              "Distinct = hash of the decoded case.",
         assumptions=COMMON_ASSUME,
     ),
+    "C11": dict(
+        bin="h_tree", sub="c11", level="fault_enumeration",
+        technique="generated histories with an injected SIGKILL of the writing process at a generated flush/close boundary (fork per case) compared with the snapshot the writer saw; close() with generated sets of live handles checked through HDF5's open-object count, stale-handle calls and an Overwrite open",
+        level_text="fault = death of the writing process without any exit handler. Per case the harness forks; the child runs 1-4 program "
+                   "segments, each ended by flush() or close(), and kills itself (SIGKILL) at a generated one of these boundaries after "
+                   "recording the snapshot it saw there; the parent opens the file ReadOnly, ReadWrite and Overwrite (copies) and through a "
+                   "third process and requires exactly the recorded snapshot. Second part: 0-12 live handles (block, array, the four "
+                   "dimension kinds, tag, feature, multi tag, group, source, section, property, data frame, data view, File copy) across "
+                   "close(): no file/group/dataset/attribute may remain open in the process, reading and mutating calls on the stale "
+                   "handles must throw, the bytes must not change, Overwrite must succeed",
+        level_note="covers the death of the process (what the statement says), not of the operating system; a crash between a modification "
+                   "and the next flush has no required outcome and is not generated; flush() returning false carries no obligation",
+        quick=dict(cases=120, size=600, workers=16, timeout=1800),
+        thorough=dict(cases=4000, size=600, workers=16, timeout=14400),
+        rule="tape -> {crash case | handles case}. Non-trivial: a kill right after a flush that followed at least 1 successful delete/"
+             "unlink and 3 creates; a close with live handles of at least 3 different kinds. Distinct = hash of the decoded case.",
+        assumptions=COMMON_ASSUME + ["SIGKILL of the writer models 'killed without running any exit handler'; the page cache survives by construction of the OS"],
+    ),
     "C08": dict(
         bin="h_tree", sub="c08", level="exploration",
         technique="rapidcheck-generated API programs with invalid arguments; complete observable state (snapshot) compared before/after every call that threw",
